@@ -65,10 +65,7 @@ func (h *ValueReader) HandleArrayValue(data []byte) (p int, err error) {
 		}
 		h2.newMapSize = h.maxMapSize
 		val, pp, err = h2.ReadObject(data)
-		mpLen := len(val.(map[string]interface{}))
-		if mpLen > h.maxMapSize {
-			h.maxMapSize = mpLen
-		}
+		h.maxMapSize = len(val.(map[string]interface{}))
 		h.returnValueReader(h2)
 	case ArrayStartType:
 		h2 := h.borrowValueReader()
@@ -116,10 +113,7 @@ func (h *ValueReader) HandleObjectValue(fieldname, data []byte) (p int, err erro
 		}
 		h2.newMapSize = h.maxMapSize
 		val, pp, err = h2.ReadObject(data)
-		mpLen := len(val.(map[string]interface{}))
-		if mpLen > h.maxMapSize {
-			h.maxMapSize = mpLen
-		}
+		h.maxMapSize = len(val.(map[string]interface{}))
 		h.returnValueReader(h2)
 	case ArrayStartType:
 		h2 := h.borrowValueReader()
@@ -219,9 +213,11 @@ func (h *ValueReader) ReadObject(data []byte) (val map[string]interface{}, p int
 	h.objVal = make(map[string]interface{}, mapSize)
 	p, err = HandleObjectValues(data[p:], h, &h.buf)
 	if err != nil {
+		h.lastMapSize = len(h.objVal)
 		return nil, p, err
 	}
 	valLen := len(h.objVal)
+	h.lastMapSize = valLen
 
 	// make sure to return err for null
 	if valLen == 0 {
@@ -231,7 +227,6 @@ func (h *ValueReader) ReadObject(data []byte) (val map[string]interface{}, p int
 		}
 	}
 
-	h.lastMapSize = valLen
 	return h.objVal, p, nil
 }
 
@@ -275,10 +270,12 @@ func (h *ValueReader) ReadArray(data []byte) (val []interface{}, p int, err erro
 	h.arrVal = make([]interface{}, 0, sliceSize)
 	p, err = HandleArrayValues(data, h, &h.buf)
 	if err != nil {
+		h.lastSliceSize = len(h.arrVal)
 		return nil, p, err
 	}
 
 	valLen := len(h.arrVal)
+	h.lastSliceSize = valLen
 
 	// make sure to return err for null
 	if valLen == 0 {
@@ -288,7 +285,6 @@ func (h *ValueReader) ReadArray(data []byte) (val []interface{}, p int, err erro
 		}
 	}
 
-	h.lastSliceSize = valLen
 	return h.arrVal, p, err
 }
 
